@@ -197,6 +197,9 @@ const switching = -8
 // the connection in the meantime comes after it, under the counters of its arrival position.
 const response = -9
 
+// responses: two such responses one after the other (what was kept during the first must not land inside the second)
+const responses = -10
+
 func has(writers [][]int, kind int) bool {
 	for _, w := range writers {
 		if len(w) == 1 && w[0] == kind {
@@ -684,6 +687,21 @@ func execute(c *fw.Ctx, writers [][]int, prefix []int, bound int, prior int) []s
 			bodies = append(bodies, func() { conn.Close() })
 			continue
 		}
+		if len(lens) == 1 && lens[0] == responses {
+			one, two := payload(9, 9, 1500), payload(9, 10, 1300)
+			want = append(want, one, two)
+			bodies = append(bodies, func() {
+				conn.BeginResponse()
+				conn.Write(one[:1100])
+				conn.Write(one[1100:])
+				conn.EndResponse()
+				conn.BeginResponse()
+				conn.Write(two[:1100])
+				conn.Write(two[1100:])
+				conn.EndResponse()
+			})
+			continue
+		}
 		if len(lens) == 1 && lens[0] == response {
 			whole := payload(9, 9, 1500)
 			want = append(want, whole)
@@ -799,6 +817,8 @@ func scenarios(thorough bool) []scenario {
 		// (no third writer that calls Write directly: responses are written by the connection's own handler only; everybody
 		// else goes through WriteMessage)
 		{[][]int{{response}, {keepAlive}}, -1, 0},
+		{[][]int{{responses}, {notify}}, 3, 0},
+		{[][]int{{responses}, {keepAlive}}, 3, 0},
 		{[][]int{{response}, {notifyLong}, {notify}}, 2, 0},
 		{[][]int{{1500}, {closer}}, -1, 0},
 		{[][]int{{300}, {40}, {closer}}, 2, 0},
@@ -1166,7 +1186,7 @@ func init() {
 	fw.Register(&fw.Check{
 		ID:    "C08",
 		Level: "model_checking",
-		Rule:  "stateless exploration of goroutine interleavings under a cooperative scheduler with iterative preemption bounding: 2–5 writer goroutines × 1–3 Connection.Write calls with one- and two-frame payloads, keep-alive rounds sent by hap.KeepAlive itself, and EVENTs written by the notifyListener of a real (not started) IP transport after an application value change (a boolean, and a 3000-byte string: an EVENT of four frames), over a socket that stalls in the middle of every write (a write deadline armed meanwhile expires for the write in flight), the connection's own reader opening an incoming two-frame request whose ciphertext arrives in five pieces (each arrival a scheduling point) while writes are in flight, and a writer on another connection of the same accessory, on a real hap.Connection with a real secure session; scheduling points = every Lock of a sync.Mutex/RWMutex and every Wait of a sync.Cond in packages hap and crypto (import rewritten to a shim through go build -overlay) and every socket Write; per schedule the captured wire must decrypt front to back with counters in arrival order (reference AEAD) and be a sequence of whole payloads (the same for the other connection's wire), and the reader must get the request intact. 2-writer scenarios unbounded, larger ones preemption bound 2 (thorough: unbounded / 3). Plus the same questions at STATEMENT granularity (subprocess built with a scheduling point before every statement of hc's packages, preemption bound 1 / 2): two writers on one connection, a writer and the reader, writers on two connections, a write that notifies another connection. Also: a connection that switches to encryption — its reader takes the controller's first encrypted request and writes the response — while other writers are active (seen from the accessory: plain messages, then frames, never plain text after the first frame, and no frames before the controller's first encrypted bytes have arrived — also while the application changes a value and the transport's fan-out walks over the connections); the 2-writer scenario on a connection that has carried 255 / 65535 (thorough also 256, 65534, 65536) writes before; scenarios in which a third thread closes the connection while writers are active (what reaches the peer before the socket closes must still decrypt in order and be whole payloads plus at most the beginning of one — nothing unencrypted); a response announced to the connection (BeginResponse), written in two pieces and finished (EndResponse) while the application changes a value or a keep-alive is due: its pieces reach the peer as one uninterrupted message and what became due meanwhile follows it under the counters of its arrival position; the object the server's Accept hands to net/http is the one the session holds (responses and events share one write lock); and every sequence of ≤3 (thorough ≤4) SetDeadline / SetReadDeadline / SetWriteDeadline calls through the hap.Connection (net/http's read-deadline calls at the end of every request must not reach the write deadline of a concurrent event write). Plus a free-running pass of the same bodies in a -race build, with one run against a peer that stalls for 3.5 s (real time) in the middle of a write while two more writers arrive. distinct_nontrivial = distinct (scenario, wire record order) outcomes — more than one per scenario means writers really collided",
+		Rule:  "stateless exploration of goroutine interleavings under a cooperative scheduler with iterative preemption bounding: 2–5 writer goroutines × 1–3 Connection.Write calls with one- and two-frame payloads, keep-alive rounds sent by hap.KeepAlive itself, and EVENTs written by the notifyListener of a real (not started) IP transport after an application value change (a boolean, and a 3000-byte string: an EVENT of four frames), over a socket that stalls in the middle of every write (a write deadline armed meanwhile expires for the write in flight), the connection's own reader opening an incoming two-frame request whose ciphertext arrives in five pieces (each arrival a scheduling point) while writes are in flight, and a writer on another connection of the same accessory, on a real hap.Connection with a real secure session; scheduling points = every Lock of a sync.Mutex/RWMutex and every Wait of a sync.Cond in packages hap and crypto (import rewritten to a shim through go build -overlay) and every socket Write; per schedule the captured wire must decrypt front to back with counters in arrival order (reference AEAD) and be a sequence of whole payloads (the same for the other connection's wire), and the reader must get the request intact. 2-writer scenarios unbounded, larger ones preemption bound 2 (thorough: unbounded / 3). Plus the same questions at STATEMENT granularity (subprocess built with a scheduling point before every statement of hc's packages, preemption bound 1 / 2): two writers on one connection, a writer and the reader, writers on two connections, a write that notifies another connection. Also: a connection that switches to encryption — its reader takes the controller's first encrypted request and writes the response — while other writers are active (seen from the accessory: plain messages, then frames, never plain text after the first frame, and no frames before the controller's first encrypted bytes have arrived — also while the application changes a value and the transport's fan-out walks over the connections); the 2-writer scenario on a connection that has carried 255 / 65535 (thorough also 256, 65534, 65536) writes before; scenarios in which a third thread closes the connection while writers are active (what reaches the peer before the socket closes must still decrypt in order and be whole payloads plus at most the beginning of one — nothing unencrypted); a response announced to the connection (BeginResponse), written in two pieces and finished (EndResponse) while the application changes a value or a keep-alive is due: its pieces reach the peer as one uninterrupted message and what became due meanwhile follows it under the counters of its arrival position (also with a second response right behind the first: nothing kept during the first lands inside the second); the object the server's Accept hands to net/http is the one the session holds (responses and events share one write lock); and every sequence of ≤3 (thorough ≤4) SetDeadline / SetReadDeadline / SetWriteDeadline calls through the hap.Connection (net/http's read-deadline calls at the end of every request must not reach the write deadline of a concurrent event write). Plus a free-running pass of the same bodies in a -race build, with one run against a peer that stalls for 3.5 s (real time) in the middle of a write while two more writers arrive. distinct_nontrivial = distinct (scenario, wire record order) outcomes — more than one per scenario means writers really collided",
 		Shards: func(t string) int {
 			if t == "thorough" {
 				return 16
